@@ -231,7 +231,8 @@ namespace AIToolbox {
                 sum += ubV.first[compatiblePoints[i]][s] * result[i];
             retval[s] = point[s] - sum;
         }
-        retval.tail(compatiblePoints.size()) = result;
+        for (size_t i = 0; i < compatiblePoints.size(); ++i)
+            retval[point.size() + compatiblePoints[i]] = result[i];
         // Remove infinitesimal/negative values
         for (auto i = 0; i < retval.size(); ++i)
             if (checkEqualSmall(retval[i], 0.0) || retval[i] < 0.0) retval[i] = 0.0;
